@@ -375,7 +375,7 @@ pub fn last_history() -> serde_json::Value {
 /// a network controller nobody talks to (the tx-pool service wants one)
 pub fn dummy_network(shared: &Shared) -> NetworkController {
     static N: std::sync::atomic::AtomicUsize = std::sync::atomic::AtomicUsize::new(0);
-    let dir = hx_common::out_dir("poolchain-net").join(format!(
+    let dir = std::env::temp_dir().join(format!(
         "net-{}-{}",
         std::process::id(),
         N.fetch_add(1, std::sync::atomic::Ordering::SeqCst)
